@@ -94,6 +94,13 @@ def feasible_items(tier):
         sp = F.with_teams(fl, "POOL2")
         sp = dict(sp, teams=[dict(tm, wire="ctor") for tm in sp["teams"]])
         out.append((sp, {"rule": "TSLACK", "max_time": F.seq_bound(sp) + 6}))
+    # a task that is complete within the library's tolerance (0.7 + 0.2 + 0.1 booked) and that nobody is skilled for any more
+    for fl in list(F.flows(3, ("FS", "SS"), (1, 2)))[:: (4 if tier == "quick" else 1)]:
+        for prog in (1.0, 1.0 - 5e-11, 0.7 + 0.2 + 0.1):
+            sp = F.with_teams(fl, "POOL2")
+            sp = dict(sp, tasks=[dict(t) for t in sp["tasks"]], teams=[dict(tm, workers=[dict(w, skills={k: v for k, v in w["skills"].items() if k != "T0"}) for w in tm["workers"]]) for tm in sp["teams"]])
+            sp["tasks"][0]["progress"] = prog
+            out.append((sp, {"rule": "TSLACK", "max_time": F.seq_bound(sp) + 4}))
     # one component with two sequential facility tasks whose workplaces differ (every needed facility exists and is free: feasible)
     for sp in F.sequential_facility_specs():
         out.append((sp, {"rule": "TSLACK", "max_time": F.seq_bound(sp) + 4}))
@@ -111,7 +118,7 @@ def feasible_items(tier):
 def infeasible_items(tier):
     out = []
     for fl in list(F.flows(3, ("FS", "SS"), (1,)))[:: (3 if tier == "quick" else 1)]:
-        for why in ("skill0", "missing", "team", "fixed", "below-tol"):
+        for why in ("skill0", "missing", "team", "fixed", "fixed-empty", "below-tol", "negative"):
             sp = F.with_teams(fl, "POOL2")
             sp = dict(sp, tasks=[dict(t) for t in sp["tasks"]], teams=[dict(tm, workers=[dict(w, skills=dict(w["skills"])) for w in tm["workers"]]) for tm in sp["teams"]])
             victim = 1
@@ -129,6 +136,11 @@ def infeasible_items(tier):
                 sp["teams"][0]["targets"] = [0, 2]
             elif why == "fixed":
                 sp["tasks"][victim]["fixw"] = ["nobody"]
+            elif why == "fixed-empty":
+                sp["tasks"][victim]["fixw"] = []
+            elif why == "negative":
+                for w in sp["teams"][0]["workers"]:
+                    w["skills"][vn] = -0.5
             for mt in (0, 1, 5, 12):
                 out.append((sp, {"rule": "TSLACK", "max_time": mt}))
     # workers built without the skill keyword and filled in place: the unskilled one must not inherit anything
